@@ -115,6 +115,61 @@ void do_exact(Ctx<W> &x, const std::string &variant) {
 }
 
 template<class W>
+void do_spanner(Ctx<W> &x, std::size_t k) {
+    typedef typename Ctx<W>::Graph Graph; typedef typename Ctx<W>::Edge Edge;
+    typedef typename property_map<Graph, edge_weight_t>::type WM;
+    typedef std::back_insert_iterator<std::list<std::list<Edge>>> It;
+    typedef parmcb::detail::mcb_sva_signed<Graph, WM, It> Exact;
+    WM wm = get(edge_weight, x.g);
+    parmcb::detail::BaseApproxSpannerAlgorithm<Graph, WM, Exact, false> algo(x.g, wm, get(vertex_index, x.g), k);
+    std::cout << "scan"; for (auto &e : algo.verif_scan_order()) std::cout << " " << x.id(e); std::cout << "\n";
+    const Graph &sp = algo.verif_spanner();
+    auto spw = get(edge_weight, sp);
+    std::cout << "retained";
+    for (auto ep = edges(sp); ep.first != ep.second; ++ep.first) std::cout << " " << x.id(algo.verif_edge_spanner_to_g().at(*ep.first));
+    std::cout << "\n";
+    for (auto ep = edges(sp); ep.first != ep.second; ++ep.first) {
+        auto se = *ep.first;
+        std::cout << "spe " << source(se, sp) << " " << target(se, sp) << " " << x.scaled(get(spw, se)) << "\n";
+    }
+    std::cout << "spn " << num_vertices(sp) << "\n";
+    std::cout << "dropped"; for (auto &e : algo.verif_non_spanner_edges()) std::cout << " " << x.id(e); std::cout << "\n";
+}
+
+template<class W>
+void do_approx(Ctx<W> &x, const std::string &variant, std::size_t k) {
+    typedef typename Ctx<W>::Edge Edge;
+    std::list<std::list<Edge>> cycles;
+    auto wm = get(edge_weight, x.g);
+    W ret = W();
+    bool threw = false;
+    try {
+        if (variant == "signed") ret = parmcb::approx_mcb_sva_signed(x.g, wm, k, std::back_inserter(cycles));
+        else if (variant == "fvs") ret = parmcb::approx_mcb_sva_fvs_trees(x.g, wm, k, std::back_inserter(cycles));
+        else if (variant == "iso") ret = parmcb::approx_mcb_sva_iso_trees(x.g, wm, k, std::back_inserter(cycles));
+        else if (variant == "signed_tbb") ret = parmcb::approx_mcb_sva_signed_tbb(x.g, wm, k, std::back_inserter(cycles));
+        else if (variant == "fvs_tbb") ret = parmcb::approx_mcb_sva_fvs_trees_tbb(x.g, wm, k, std::back_inserter(cycles));
+        else if (variant == "iso_tbb") ret = parmcb::approx_mcb_sva_iso_trees_tbb(x.g, wm, k, std::back_inserter(cycles));
+        else { std::cout << "error unknown-variant\n"; return; }
+    } catch (const std::runtime_error &e) { threw = true; }
+    // everything below happens AFTER the call has returned: the descriptors must still be usable
+    std::size_t foreign = 0;
+    long long truew = 0;
+    for (auto &c : cycles) {
+        for (auto &e : c) {
+            std::size_t i = x.id(e);
+            if (i >= x.m || !(x.edges[i] == e) || source(e, x.g) != source(x.edges[i], x.g) || target(e, x.g) != target(x.edges[i], x.g)) foreign++;
+            truew += x.scaled(get(wm, e));
+        }
+        x.print_cycle("cycle", c);
+    }
+    std::cout << "foreign " << foreign << "\n";
+    std::cout << "truew " << truew << "\n";
+    if (threw) std::cout << "throw " << cycles.size() << "\n";
+    else std::cout << "ret " << x.scaled(ret) << " " << (x.exact(ret) ? 1 : 0) << "\n";
+}
+
+template<class W>
 void run_case(const CaseIn &c) {
     Ctx<W> x;
     x.build(c);
@@ -122,6 +177,8 @@ void run_case(const CaseIn &c) {
     if (c.kind == "forest") do_forest(x);
     else if (c.kind == "fvs") do_fvs(x);
     else if (c.kind == "exact") do_exact(x, c.args.at(2));
+    else if (c.kind == "spanner") do_spanner(x, std::stoul(c.args.at(2)));
+    else if (c.kind == "approx") do_approx(x, c.args.at(2), std::stoul(c.args.at(3)));
     std::cout << "end\n";
 }
 
